@@ -7,6 +7,7 @@ instance parser, foreign subtrees, allocation limit) and every listener state / 
 `Cfg.fixed` = the code with the four C17 fixes; the `C17_original_*` witnesses show what each fix repairs.
 -/
 import Proofs.Lemmas.ListenerHttp
+import Proofs.Lemmas.XmlText
 
 namespace C17
 open Pywbem.Proto Pywbem.Model Pywbem.Model.XmlText Pywbem.Model.ListenerHttp Proofs.ListenerHttp
@@ -219,6 +220,34 @@ theorem C17_body_is_valid_export_response (E : Env) (s s' : LState) (r : Req) (r
     | accepted msgid inst =>
       exact ⟨msgid, _, none, rfl, rfl, by simp [exportRsp, exportHeaders, hget, lowerAscii] <;> decide,
         by simp [exportRsp, exportHeaders, hget, lowerAscii] <;> decide, by intro c d hcd; cases hcd⟩
+
+set_option maxRecDepth 4000 in
+/-- the text of the two kinds of export response, character for character (request-derived text appears only
+    inside attribute values, escaped by `esc`) -/
+theorem C17_export_response_text (msgid m : Str) (code : Nat) (desc : Str) :
+    rspBody msgid m none =
+      xmlDecl ++ "<CIM CIMVERSION=\"2.0\" DTDVERSION=\"2.4\"><MESSAGE ID=\"".toList ++ esc msgid ++
+      "\" PROTOCOLVERSION=\"1.4\"><SIMPLEEXPRSP><EXPMETHODRESPONSE NAME=\"".toList ++ esc m ++
+      "\"/></SIMPLEEXPRSP></MESSAGE></CIM>".toList ∧
+    rspBody msgid m (some (code, desc)) =
+      xmlDecl ++ "<CIM CIMVERSION=\"2.0\" DTDVERSION=\"2.4\"><MESSAGE ID=\"".toList ++ esc msgid ++
+      "\" PROTOCOLVERSION=\"1.4\"><SIMPLEEXPRSP><EXPMETHODRESPONSE NAME=\"".toList ++ esc m ++
+      "\"><ERROR CODE=\"".toList ++ esc (natStr code) ++ "\" DESCRIPTION=\"".toList ++ esc desc ++
+      "\"/></EXPMETHODRESPONSE></SIMPLEEXPRSP></MESSAGE></CIM>".toList := by
+  have e1 : esc "2.0".toList = "2.0".toList := by decide
+  have e2 : esc "2.4".toList = "2.4".toList := by decide
+  have e3 : esc "1.4".toList = "1.4".toList := by decide
+  constructor <;>
+    (simp only [rspBody, rspTree, Xml.ser, Xml.serList, Xml.serAttrs, implCimVersion, implDtdVersion,
+       implProtocolVersion, e1, e2, e3]
+     simp)
+
+/-- … and what an XML parser reads back from the ID / NAME attributes is the request's message id / method
+    name after attribute-value normalisation (TAB, CR, LF become blanks) — unchanged when it has none of them -/
+theorem C17_response_ids_read_back (v : Str) (hx : ∀ c ∈ v, isXmlChar c = true) :
+    recvAttr (.txt false) (esc v) = some (normAttr false v) ∧
+    ((∀ c ∈ v, c ≠ '\r' ∧ c ≠ '\n' ∧ c ≠ '\t') → wireAttr v = some v) :=
+  ⟨Proofs.XmlText.recvAttr_esc v false hx, fun hp => Proofs.XmlText.wireAttr_id v hx hp⟩
 
 /-- **failed_request_leaves_state.**  The listener state changes only when the answer is the success
     response, and then exactly by appending that indication to the queue (which was not full). -/
